@@ -13,7 +13,7 @@
        2 sqrt 2 theta >= 1 a summarised box can contain the query point (distance to a member no longer bounded
        below by (1 - 2 sqrt 2 theta) dist(p, com)). *)
 From Coq Require Import List Arith Bool ZArith QArith Lia Lqa.
-From TK Require Import QuadTree_Model QuadTree_Spec QuadTree_SpecExec QuadTree_Proof_Base QuadTree_Proof_Bound
+From TK Require Import QuadTree_Model QuadTree_Spec QuadTree_SpecExec QuadTree_SpecExec2 QuadTree_Proof_Base QuadTree_Proof_Bound
                        QuadTree_Proof_Final.
 Import ListNotations.
 Local Open Scope Q_scope.
@@ -28,19 +28,6 @@ Proof.
   assert (th1 * th1 * D <= th2 * th2 * D) by nra.
   lra.
 Qed.
-
-(* the subtrees computeNonEdgeForces uses as summaries (a leaf that is not the query's own, or a node that passes
-   the criterion), in the order it adds them *)
-Fixpoint forces_subtrees (p : pt) (i : nat) (theta : Q) (t : qt) : list qt :=
-  match t with
-  | Leaf c st cum com =>
-    if (cum =? 0)%nat then [] else if self_leaf st i then [] else [t]
-  | Node c cum com nw ne sw se =>
-    if (cum =? 0)%nat then []
-    else if summary_ok c theta (sqdist p com) then [t]
-    else forces_subtrees p i theta nw ++ forces_subtrees p i theta ne
-         ++ forces_subtrees p i theta sw ++ forces_subtrees p i theta se
-  end.
 
 (* it is the list forces_cells prints, without the preorder numbers *)
 Lemma forces_subtrees_cells : forall p i theta t n,
